@@ -12,8 +12,8 @@ from . import simdata as SD
 from .run import Check, Section
 
 _dir = None
-ONE = 10**12
-PVALS = ["0", "1e-8", "0.0001", "0.0001", "0.001", "0.03", "0.05", "0.05", "0.2", "0.5", "0.9", "1"]
+ONE = 10**320  # p-values enter the Lean model as integers p * ONE: exact for every decimal token down to 1e-300
+PVALS = ["0", "1e-8", "0.0001", "0.0001", "0.001", "0.03", "0.05", "0.05", "0.2", "0.5", "0.9", "1", "1e-70", "3e-52", "4e-48", "1e-300", "0.00010000000001"]  # incl. values that only differ beyond single precision
 
 
 def setup():
@@ -120,7 +120,7 @@ def gen_clump(rng, tier):
         ns = rng.randint(2, 8)
         medium = rng.random() < 0.05
         if medium:
-            nv, ns = rng.randint(17, 30), rng.randint(17, 40)
+            nv, ns = rng.randint(17, 45), rng.randint(17, 40)
         chroms = rng.sample(["1", "2", "X"], rng.randint(1, 2))
         variants = []
         used = set()
@@ -158,6 +158,11 @@ def gen_clump(rng, tier):
                 if rng.random() < 0.3:
                     k = rng.randrange(ns)
                     gts[j][k] = [rng.randint(1, 7), rng.randint(1, 7)]
+                if rng.random() < 0.3:
+                    # missing calls (only a tandem-repeat file can carry them: the SNP loaders refuse missing calls):
+                    # r2 is taken over the samples called at both variants
+                    for k in rng.sample(range(ns), rng.randint(1, max(1, ns // 3))):
+                        gts[j][k] = None
         yield {"types": types, "variants": variants, "gts": gts, "order": rows, "p1": rng.choice(["0.0001", "0.01", "0.1", "0.6", "1"]), "p2": rng.choice(["0.01", "0.3", "1"]), "kb": rng.choice([0.001, 0.5, 1, 250, 250, 0.5002, 1.9003, 0.4003, 32.3]), "r2": rng.choice([0.0, 0.1, 0.5, 0.9]), "ld": rng.choice(["Pearson", "Pearson", "Exact"]) if mode == "snp" else "Pearson", "cols": rng.choice([["SNP", "CHR", "POS", "P"], ["P", "POS", "SNP", "CHR"], ["CHR", "junk", "SNP", "P", "POS"]]), "names": rng.choice([None, {"SNP": "ID", "P": "p-value", "CHR": "CHROM", "POS": "position"}]), "pgen": rng.random() < 0.3 and mode != "str"}
 
 
@@ -179,11 +184,11 @@ def write_str_vcf(path, samples, recs):
             f.write(f"##contig=<ID={c}>\n")
         f.write("#CHROM\tPOS\tID\tREF\tALT\tQUAL\tFILTER\tINFO\tFORMAT\t" + "\t".join(samples) + "\n")
         for vid, chrom, pos, motif, col in recs:
-            copies = sorted({x for pair in col for x in pair})
+            copies = sorted({x for pair in col if pair is not None for x in pair}) or [1]
             ref = copies[0]
             alts = [k for k in copies if k != ref] or [ref + 1]
             idx = {ref: 0, **{k: i + 1 for i, k in enumerate(alts)}}
-            gt = ["|".join(str(idx[x]) for x in pair) for pair in col]
+            gt = ["." if pair is None else "|".join(str(idx[x]) for x in pair) for pair in col]
             f.write("\t".join([chrom, str(pos), vid, motif * ref, ",".join(motif * k for k in alts), ".", ".", f"START={pos};END={pos + len(motif) * ref - 1};PERIOD={len(motif)}", "GT"] + gt) + "\n")
 
 
@@ -191,13 +196,14 @@ def _decisions(case):
     """exact LD decision matrix ld[i][j] = r2(i, j) > threshold (Pearson on dosages; NaN -> False); also flags
     cases whose r2 is within 1e-9 of the threshold (not comparable through floats)"""
     nv = len(case["variants"])
-    dos = [[sum(x) for x in col] for col in case["gts"]]
+    dos = [[None if x is None else sum(x) for x in col] for col in case["gts"]]
     thr = Fraction(case["r2"]).limit_denominator(10**6)
     ld = [[False] * nv for _ in range(nv)]
     near = False
     for i in range(nv):
         for j in range(nv):
-            r = r2_exact(dos[j], dos[i])
+            both = [(a, b) for a, b in zip(dos[j], dos[i]) if a is not None and b is not None]  # pairwise deletion
+            r = r2_exact([a for a, _ in both], [b for _, b in both])
             if r is None or r == "empty":
                 continue
             if abs(float(r) - float(thr)) < 1e-6:
@@ -350,7 +356,9 @@ def describe_clump(case, obs):
     ids = [v["id"] for v in case["variants"]]
     if len(set(ids)) < len(ids):
         tags.append("shared-ids")
-    if any(all(x == col[0] for x in col) for col in [[sum(c) for c in g] for g in case["gts"]]):
+    if any(g_ is None for g in case["gts"] for g_ in g):
+        tags.append("missing-str-calls")
+    if any(all(x == col[0] for x in col) for col in [[None if c is None else sum(c) for c in g] for g in case["gts"]]):
         tags.append("constant-genotype-variant")
     return tags
 
@@ -361,7 +369,7 @@ def variants_clump(case):
         if nv > 1:
             keep = [j for j in range(nv) if j != d]
             ren = {j: k for k, j in enumerate(keep)}
-            yield {**case, "variants": [case["variants"][j] for j in keep], "gts": [case["gts"][j] for j in keep], "order": [ren[j] for j in case["order"] if j != d]}
+            yield {**case, "variants": [case["variants"][j] for j in keep], "gts": [case["gts"][j] for j in keep], "types": [(case.get("types") or ["SNP"] * nv)[j] for j in keep], "order": [ren[j] for j in case["order"] if j != d]}
 
 
 # ------------------------------------------------------------------ sample overlap
